@@ -427,7 +427,13 @@ def run(ctx):
             kinds.append('reader-level')
             case['faults'] = kinds
             case['text'] = text if len(text) < 150000 else None
-        if rng.random() < 0.18:
+        if rng.random() < 0.06:
+            text = mutate.envelope_soup(rng, e['icvn'])
+            case = {'map': e['file'], 'envelope_soup': True, 'charset': doc.charset, 'text': text, 'k': ['c05', ctx.shard, k]}
+            ctx.count('docs:envelope-soup')
+            judge(ctx, text, case, False, sigs, e['file'])
+            ctx.count('docs:B')
+        elif rng.random() < 0.18:
             text, names = mutate.mutate(rng, text)
             case['mutations'] = names
             case['text'] = text if len(text) < 150000 else None
